@@ -27,7 +27,7 @@ func init() {
 			if tier == "thorough" {
 				return 400
 			}
-			return 32
+			return 96
 		},
 		Run:         runC19,
 		Assumptions: []string{"inputs are plain non-negative decimals without exponent or sign, at most nine fractional digits, at most 30 significant digits"},
